@@ -206,9 +206,19 @@ void Instance::parse_stack_args(size_t argc, char* const* argv, size_t starting_
 bool Instance::setup_environment(unsigned int flags) {
     if (tx) {
         if (txin && txin_index > -1) {
+            // the taproot digests commit to every spent output: they are all known when every input spends an output of the one
+            // input transaction we were given (in particular when there is a single input)
             std::vector<CTxOut> spent_outputs;
-            spent_outputs.emplace_back(txin->vout[txin_vout_index]);
-            if (tx->vin.size() == 1) {
+            bool all_known = true;
+            for (const auto& in : tx->vin) {
+                if (in.prevout.hash == txin->GetHash() && in.prevout.n < txin->vout.size()) {
+                    spent_outputs.emplace_back(txin->vout[in.prevout.n]);
+                } else {
+                    all_known = false;
+                    break;
+                }
+            }
+            if (all_known) {
                 txdata.Init(*tx.get(), std::move(spent_outputs), has_preamble);
             }
         }
